@@ -120,7 +120,8 @@ struct ZzPlain {
   std::vector<Bar> all, last;
   std::int64_t arrows = 0;
   std::unique_ptr<ZP> zp;
-  ZzPlain() : zp(new ZP([this](int dim, int b, int d) { last.emplace_back(dim, b, d); all.emplace_back(dim, b, d); })) {}
+  ZzPlain() : zp(new ZP([this](int dim, int b, int d) { last.emplace_back(dim, b, d); all.emplace_back(dim, b, d); },
+                        ct == CT::LIST || ct == CT::SET || ct == CT::SMALL_VECTOR ? 28 : 0)) {}   // preallocationSize
   ZzPlain(const ZzPlain&) = delete;
   static std::string& cfgname() { static std::string s; return s; }
   static const char* name() { return cfgname().c_str(); }
@@ -156,7 +157,7 @@ struct ZzFiltered {
   ZzFiltered() : zp(new ZP([this](int dim, double b, double d) {
     last.emplace_back(dim, val_code(b), val_code(d));
     all.emplace_back(dim, val_code(b), val_code(d));
-  })) {}
+  }, zz_cfg().reverse_bd ? 6 : 0)) {}   // preallocationSize: 0 or 6 cells
   ZzFiltered(const ZzFiltered&) = delete;
   static const char* name() { return zz_cfg().name.c_str(); }
   bool applicable(const bj::object&) { return true; }
@@ -194,7 +195,7 @@ struct ZzStorage {
   std::int64_t arrows = 0;
   KeyMap km;
   std::unique_ptr<ZP> zp;
-  ZzStorage() : zp(new ZP(0, zz_cfg().D)) {}
+  ZzStorage() : zp(new ZP(zz_cfg().reverse_bd ? 6 : 0, zz_cfg().D)) {}   // preallocationSize: 0 or 6 cells
   ZzStorage(const ZzStorage&) = delete;
   static const char* name() { return zz_cfg().name.c_str(); }
   bool applicable(const bj::object&) { return true; }
